@@ -95,6 +95,8 @@ type cont interface {
 	write(i, x, how int)
 	reset()
 	swap(i, k int)
+	swapRows(i, k int) error // square matrices only
+	swapCols(i, k int) error
 	reverse() error
 	permute(p []int) error
 	sort(rev bool) error
@@ -176,6 +178,8 @@ func (c *vecCont) write(i, x, how int) {
 
 func (c *vecCont) reset()        { c.v.Reset() }
 func (c *vecCont) swap(i, k int) { c.v.Swap(i, k) }
+func (c *vecCont) swapRows(i, k int) error { return errUnsupported }
+func (c *vecCont) swapCols(i, k int) error { return errUnsupported }
 func (c *vecCont) reverse() error {
 	c.v.ReverseOrder()
 	return nil
@@ -532,6 +536,25 @@ func (c *matCont) swap(i, k int) {
 	r1, c1 := c.rc(i)
 	r2, c2 := c.rc(k)
 	c.m.Swap(r1, c1, r2, c2)
+}
+
+func (c *matCont) swapRows(i, k int) error {
+	if c.rows != c.cols {
+		return errUnsupported
+	}
+	if err := c.m.SwapRows(i, k); err != nil {
+		panic("SwapRows returned an error on a square matrix: " + err.Error())
+	}
+	return nil
+}
+func (c *matCont) swapCols(i, k int) error {
+	if c.rows != c.cols {
+		return errUnsupported
+	}
+	if err := c.m.SwapColumns(i, k); err != nil {
+		panic("SwapColumns returned an error on a square matrix: " + err.Error())
+	}
+	return nil
 }
 
 // operations without a matrix method act on the storage vector AsVector() hands out
